@@ -12,6 +12,7 @@
  */
 
 #include <errno.h>
+#include <limits.h>
 #include <stdlib.h>
 #include <stdio.h>
 #include <string.h>
@@ -46,6 +47,12 @@ int rf_wavheader_decode(const uint8_t *p, unsigned int sz, rf_wavheader_t *wh)
 	wh->block_align = rf_unpack_u16le(&pack);
 	wh->bits_per_sample = rf_unpack_u16le(&pack);
 	if (wh->fmt_chunk_size >= 18) {
+		/* consumed bytes are counted in an int; a fmt chunk this big
+		 * cannot be counted (and cannot be a real header)
+		 */
+		if (wh->fmt_chunk_size > INT_MAX / 2)
+			return -EINVAL;
+
 		wh->cb_size = rf_unpack_u16le(&pack);
 
 		if (22 == wh->cb_size) {
